@@ -106,7 +106,7 @@ class CGraph:
         # traverse the computational tree
         for nf,f in enumerate(self.functionList):
             try:
-                f.__class__.pushforward(f.func, f.args, Fout = f)
+                f.__class__.pushforward(f.func, f.args, Fkwargs = f.kwargs, Fout = f)
             except Exception as e:
                 err_str = 'pushforward of node %d failed (%s)'%(nf,f.func.__name__)
                 err_str += 'reported error is:\n%s'%e
